@@ -151,8 +151,9 @@ static void gen_v6_bytes(vh_rng *r, unsigned char *b) {
 	switch (k) {
 	case 0: memset(b, 0, 16); break;
 	case 1: memset(b, 0, 16); b[15] = 1; break;
-	case 2: memset(b, 0, 10); b[10] = b[11] = 0xff; break;                 /* v4-mapped */
-	case 3: memset(b, 0, 12); break;                                        /* v4-compatible */
+	case 2: memset(b, 0, 10); b[10] = b[11] = 0xff;                        /* v4-mapped, half of them with a special embedded IPv4 address */
+		if (vh_chance(r, 50)) { static const unsigned char sp[6][4] = { {0,0,0,0}, {127,0,0,1}, {127,255,255,255}, {255,255,255,255}, {0,0,0,1}, {128,0,0,0} }; memcpy(b + 12, sp[vh_below(r, 6)], 4); } break;
+	case 3: memset(b, 0, 12); if (vh_chance(r, 40)) { static const unsigned char sp[4][4] = { {0,0,0,0}, {0,0,0,1}, {127,0,0,1}, {0,0,0,2} }; memcpy(b + 12, sp[vh_below(r, 4)], 4); } break;    /* v4-compatible */
 	case 4: b[0] = 0xfe; b[1] = 0x80; memset(b + 2, 0, 6); break;           /* link-local */
 	case 5: b[0] = 0xff; b[1] = 0x02; break;                                /* multicast link-local */
 	case 6: { int s = (int)vh_below(r, 8), l = 1 + (int)vh_below(r, 8 - s); memset(b + 2 * s, 0, 2 * l); break; }
@@ -183,7 +184,9 @@ static void run_text(vh_rng *r, long long n) {
 	static const char *fixed[] = { "", " ", "0.0.0.0", "127.0.0.1", "127.0.0.0", "127.255.255.255", "128.0.0.0", "126.255.255.255", "255.255.255.255", "1.2.3", "1.2.3.4.5", "01.2.3.4",
 		"1.2.3.4 ", " 1.2.3.4", "1.2.3.4:80", "1.2.3.256", "1..2.3", "0x7f.0.0.1", "2130706433", "::", "::1", "::0", "0::0", "::ffff:1.2.3.4", "::1.2.3.4", "fe80::1%1", "fe80::1%lo",
 		"fe80::1%nonexistent0", "fe80::1%", "fe80::1%4294967295", "fe80::1%4294967296", "ff02::1%lo", "::1%lo", "2001:db8::1%1", ":::", "1::2::3", "12345::1", "1:2:3:4:5:6:7:8:9", "1:2:3:4:5:6:7", "1:2:3:4:5:6:7:8",
-		"1:2:3:4:5:6:7::", "::2:3:4:5:6:7:8", "[::1]", "::1/128", "localhost", "a", ":", "::ffff:256.1.1.1", "::ffff:1.2.3", "0:0:0:0:0:0:0:0", "0:0:0:0:0:0:0:1", "::FFFF:127.0.0.1", "g::1" };
+		"1:2:3:4:5:6:7::", "::2:3:4:5:6:7:8", "[::1]", "::1/128", "localhost", "a", ":", "::ffff:256.1.1.1", "::ffff:1.2.3", "0:0:0:0:0:0:0:0", "0:0:0:0:0:0:0:1", "::FFFF:127.0.0.1", "g::1",
+		/* IPv4-mapped / -compatible / translated forms of the special IPv4 addresses: the platform classifies the 128-bit value, not the embedded one */
+		"::ffff:0.0.0.0", "0:0:0:0:0:ffff::", "::ffff:0:0", "::ffff:127.0.0.1", "::ffff:255.255.255.255", "::0.0.0.0", "::127.0.0.1", "::0.0.0.1", "64:ff9b::", "64:ff9b::127.0.0.1", "::ffff:0.0.0.1", "0:0:0:0:0:0:0.0.0.0", "::1:0:0", "1::", "::8000:0:0:0" };
 	cur_class = "text-fixed";
 	for (i = 0; i < (long long)(sizeof fixed / sizeof fixed[0]); i++) text_case(fixed[i], (unsigned)vh_below(r, 65536));
 	memset(s, '1', 1100); s[1100] = 0; text_case(s, 1);
